@@ -14,7 +14,7 @@ from . import common
 ID = "C05"
 RULE = (
     "cases = fields a + b*clip(sum of tanh profiles) of 1..4 diffuse droplets satisfying the "
-    "statement's preconditions (R in [3,8] cells, w in [1,2] cells, spacing ratio within "
+    "statement's preconditions (R in [3,8] cells - a fifth up to 20 (1-D, polar, spherical) / 14 (2-D) cells -, w in [1,2] cells, spacing ratio within "
     "[0.85,1.15], distance to non-periodic walls >= R+4w, surface gaps >= 12w + fit margin) on "
     "Cartesian d=1..3 grids with every periodicity mask (centres anywhere, also outside the "
     "box), polar, spherical and cylindrical grids; threshold in {0.5,0.3,0.7,auto,extrema,mean,"
@@ -89,6 +89,8 @@ def _gen_once(rng, kind, tier):
         k = int(rng.integers(1, 5)) if dim < 3 else int(rng.integers(1, 3))
         hm = float(h.mean())
         Rmax = {1: 8.0, 2: 8.0, 3: 4.5}[dim]
+        if dim < 3 and rng.random() < 0.2:
+            Rmax, k = {1: 20.0, 2: 14.0}[dim], min(k, 2)  # finely resolved droplets
         drops = []
         for _i in range(k):
             drops.append((float(rng.uniform(3.0, Rmax) * hm), float(rng.uniform(1.0, 2.0) * hm)))
@@ -182,6 +184,8 @@ def _gen_once(rng, kind, tier):
         fam = "polar" if rng.random() < 0.5 else "sph"
         hr = float(np.round(rng.uniform(0.3, 2.5), 4))
         R = float(rng.uniform(3.0, 8.0) * hr)
+        if rng.random() < 0.3:
+            R = float(rng.uniform(8.0, 20.0) * hr)  # finely resolved droplets that fill most of the grid
         w = float(rng.uniform(1.0, 2.0) * hr)
         n = int((R + 4 * w) / hr + rng.integers(4, 16))
         spec = {"family": fam, "radius": hr * n, "shape": [n]}
@@ -364,6 +368,21 @@ def sentinels(rec):
         {"grid": {"family": "sph", "radius": 7.588799999999999, "shape": [18]},
          "droplets": [{"pos": [0.0, 0.0, 0.0], "radius": 1.46517631945419, "width": 0.5993918417306248}],
          "levels": [0.5, 0.25], "threshold": "extrema", "refine_args": {"vmin": None, "vmax": None, "adjust_values": True}},
+    ]
+    # regression cases for the repaired finding 'fitted-outside-level-bound' (no suppression): big droplets
+    # filling most of a radially symmetric grid, threshold 'mean' (high there, so the candidate ends inside
+    # the interface and the automatic start value of the outside level is far above the true level)
+    auto = {"vmin": None, "vmax": None, "adjust_values": True}
+    cases += [
+        {"grid": {"family": "sph", "radius": 0.2596279483478093 * 18, "shape": [18]},
+         "droplets": [{"pos": [0.0, 0.0, 0.0], "radius": 2.474229349793936, "width": 0.2889257931911556}],
+         "levels": [5.5, 8.0], "threshold": "mean", "refine_args": dict(auto)},
+        {"grid": {"family": "polar", "radius": 0.27805673304728984 * 30, "shape": [30]},
+         "droplets": [{"pos": [0.0, 0.0], "radius": 4.3130770732264985, "width": 0.33833826398538724}],
+         "levels": [4.875, 1.0], "threshold": "mean", "refine_args": dict(auto)},
+        {"grid": {"family": "sph", "radius": 0.014887692998992338 * 21, "shape": [21]},
+         "droplets": [{"pos": [0.0, 0.0, 0.0], "radius": 0.17205624206180065, "width": 0.0214332631611933}],
+         "levels": [11.125, 1.0], "threshold": "mean", "refine_args": dict(auto)},
     ]
     for c in cases:
         c["kind"] = "sentinel"
